@@ -183,6 +183,12 @@ def run(ctx):
     for ln in lines[:: max(1, len(lines) // 3)][:3]:
         ctx.sample({k: v for k, v in ln.items() if k != "oid"})
     bad = ctx.tlc_validate_sharded("Trace_C01", "Trace.cfg", [{k: v for k, v in ln.items() if k != "note"} for ln in lines])
+    ctx.selftest("Trace_C01", "Trace.cfg", [{k: v for k, v in ln.items() if k not in ('note',)} for ln in lines if ln["oid"] not in bad and (True)], [
+        ("dev", lambda l: dict(l, dev_milli=2500)),
+        ("finite", lambda l: dict(l, finite=False) if l["what"] in ("vector", "finite") else None),
+        ("zeros", lambda l: dict(l, zeros_ok=False) if l["what"] == "vector" else None),
+        ("element", lambda l: dict(l, order=7) if l["what"] == "vector" else None),
+        ("outcome", lambda l: dict(l, outcome="Crash_KeyError") if l["what"] == "assembly" else None)])
     for oid, clause in bad.items():
         ln = uniq[oid]
         if ln["what"] == "vector":
